@@ -110,8 +110,8 @@ theorem Rel.inCheck {b b' : Board} (h : Rel b b') : b'.inCheck = b.inCheck := by
 theorem Rel.insufficient {b b' : Board} (h : Rel b b') : insufficientMaterial b' = insufficientMaterial b := by
   rw [h.read insufficientMaterial (fun _ => rfl), insufficient_mirror]
 
-theorem Rel.eval_neg {b b' : Board} (h : Rel b b') : eval b' = negScore (eval b) := by
-  rw [h.read Engine.eval noFull_eval, eval_mirror b h.1]
+theorem Rel.eval_neg {b b' : Board} (h : Rel b b') : eval false b' = negScore (eval false b) := by
+  rw [h.read (Engine.eval false) (noFull_eval false), eval_mirror b h.1]
 
 theorem Rel.capture {b b' : Board} (h : Rel b b') (m : Move) :
     (b'.raw.get m.mirror.dest).isSome = (b.raw.get m.dest).isSome := by
@@ -216,14 +216,14 @@ def node (fuel : Nat) (board : Board) (cap : Bool) (rem cur : Nat) (list : Board
   else if board.half ≥ 100 then .raw 0
   else if list.headCount == 3 then .raw 0
   else if rem == 0 && cap then
-    (if ((MoveGen.legals board).setMask (board.raw.color board.turn.flip)).isEmpty then eval board
+    (if ((MoveGen.legals board).setMask (board.raw.color board.turn.flip)).isEmpty then eval false board
      else best board.turn ((mvsOf ((MoveGen.legals board).setMask (board.raw.color board.turn.flip))).map
-       fun m => value fuel board m (rem - 1) (cur + 1) list))
-  else if rem == 0 then eval board
-  else best board.turn ((mvsOf (MoveGen.legals board)).map fun m => value fuel board m (rem - 1) (cur + 1) list)
+       fun m => value false fuel board m (rem - 1) (cur + 1) list))
+  else if rem == 0 then eval false board
+  else best board.turn ((mvsOf (MoveGen.legals board)).map fun m => value false fuel board m (rem - 1) (cur + 1) list)
 
 theorem value_succ (fuel : Nat) (old : Board) (mv : Move) (rem cur : Nat) (list : BoardList) :
-    value (fuel + 1) old mv rem cur list =
+    value false (fuel + 1) old mv rem cur list =
       node fuel (old.moveUnchecked mv) (old.raw.get mv.dest).isSome rem cur
         (if (old.raw.get mv.dest).isSome then BoardList.new (old.moveUnchecked mv) list.table
          else list.add (old.moveUnchecked mv)) := by
@@ -238,7 +238,7 @@ theorem value_succ (fuel : Nat) (old : Board) (mv : Move) (rem cur : Nat) (list 
 theorem node_mirror (fuel : Nat)
     (ih : ∀ (b b' : Board) (m : Move) (rem cur : Nat) (l l' : BoardList),
       Rel b b' → m ∈ mvsOf (legals b) → CRel l l' →
-      value fuel b' m.mirror rem cur l' = negScore (value fuel b m rem cur l))
+      value false fuel b' m.mirror rem cur l' = negScore (value false fuel b m rem cur l))
     (board board' : Board) (cap : Bool) (rem cur : Nat) (l l' : BoardList)
     (R : Rel board board') (hL : CRel l l') :
     node fuel board' cap rem cur l' = negScore (node fuel board cap rem cur l) := by
@@ -259,19 +259,19 @@ theorem node_mirror (fuel : Nat)
   · split
     · exact R.eval_neg
     · refine Eq.trans (congrArg (fun c => best c _) R.turn) ?_
-      exact children_mirror _ _ _ R.captures (fun m => value fuel board m (rem - 1) (cur + 1) l)
-        (fun m => value fuel board' m (rem - 1) (cur + 1) l')
+      exact children_mirror _ _ _ R.captures (fun m => value false fuel board m (rem - 1) (cur + 1) l)
+        (fun m => value false fuel board' m (rem - 1) (cur + 1) l')
         (fun x hx => ih _ _ _ _ _ _ _ R (mem_of_mem_setMask hx) hL)
   split
   · exact R.eval_neg
   · rw [R.turn]
-    exact children_mirror _ _ _ R.perm (fun m => value fuel board m (rem - 1) (cur + 1) l)
-      (fun m => value fuel board' m (rem - 1) (cur + 1) l')
+    exact children_mirror _ _ _ R.perm (fun m => value false fuel board m (rem - 1) (cur + 1) l)
+      (fun m => value false fuel board' m (rem - 1) (cur + 1) l')
       (fun x hx => ih _ _ _ _ _ _ _ R hx hL)
 
 theorem value_mirror (fuel : Nat) : ∀ (b b' : Board) (m : Move) (rem cur : Nat) (l l' : BoardList),
     Rel b b' → m ∈ mvsOf (legals b) → CRel l l' →
-    value fuel b' m.mirror rem cur l' = negScore (value fuel b m rem cur l) := by
+    value false fuel b' m.mirror rem cur l' = negScore (value false fuel b m rem cur l) := by
   induction fuel with
   | zero => intros; simp [value, negScore]
   | succ fuel ih =>
@@ -286,12 +286,12 @@ theorem value_mirror (fuel : Nat) : ∀ (b b' : Board) (m : Move) (rem cur : Nat
 /-- **symmetry of the minimax value**: with an empty repetition history, the value of the mirrored
 root at every depth is the negated value of the root -/
 theorem rootValue_mirror (b : Board) (hwf : b.WF = true) (depth : Nat) :
-    rootValue b.mirror [] depth = negScore (rootValue b [] depth) := by
+    rootValue false b.mirror [] depth = negScore (rootValue false b [] depth) := by
   unfold rootValue
   rw [mirror_turn]
   exact children_mirror _ _ _ (legals_mirror b hwf)
-    (fun m => value (depth + 40) b m depth 1 (BoardList.new b []))
-    (fun m => value (depth + 40) b.mirror m depth 1 (BoardList.new b.mirror []))
+    (fun m => value false (depth + 40) b m depth 1 (BoardList.new b []))
+    (fun m => value false (depth + 40) b.mirror m depth 1 (BoardList.new b.mirror []))
     (fun x hx => value_mirror _ _ _ _ _ _ _ _ (Rel.refl b hwf) hx
       (CRel.new (t := []) (t' := []) trivial (Rel.refl b hwf)))
 
